@@ -122,7 +122,7 @@ def _local_fn(facts, name):
     return None
 
 
-COMBINATORS = ('bool::then', 'bool::then_some')
+COMBINATORS = ('bool::then', 'bool::then_some', 'Option::unwrap_or_else', 'Option::unwrap_or', 'Result::unwrap_or', 'Result::unwrap_or_else')
 _inl_cache = {}
 
 
@@ -174,6 +174,13 @@ def _exp(facts, d, depth, keep, memo):
                 out = ('ite', args[0], ('agg', 'option::Option::Some', ('0', _exp(facts, v, depth + 1, keep, memo) if depth < MAX_DEPTH else v)), ('agg', 'option::Option::None'))
         elif name == 'bool::then_some' and len(args) == 2:
             out = ('ite', args[0], ('agg', 'option::Option::Some', ('0', args[1])), ('agg', 'option::Option::None'))
+        elif name in ('Option::unwrap_or', 'Result::unwrap_or') and len(args) == 2 and not any(kk in name for kk in keep):
+            out = ('phi', ('unwrap', args[0]), args[1])           # the contained value, or the default
+        elif name in ('Option::unwrap_or_else', 'Result::unwrap_or_else') and len(args) == 2 and isinstance(args[1], tuple) and args[1] and args[1][0] == 'closure' \
+                and not any(kk in name for kk in keep):
+            v = closure_apply(facts, args[1], ()) or closure_apply(facts, args[1], (('unwrap_err', args[0]),))
+            if v is not None:
+                out = ('phi', ('unwrap', args[0]), v)
         elif depth < MAX_DEPTH and not any(kk in name for kk in keep):
             b = _local_fn(facts, name)
             if b is not None and is_pure(b) and len(args) == b.argc:
@@ -188,3 +195,39 @@ def _exp(facts, d, depth, keep, memo):
         out = tuple(_exp(facts, x, depth, keep, memo) if isinstance(x, tuple) else x for x in d)
     memo[k] = (d, out)       # keep d alive so that its id is not reused
     return out
+
+
+def lift_phi(d, cap=16):
+    """distribute every constructor over phi children: (f a (phi x y)) -> (phi (f a x) (f a y)), so that a pattern written against one
+    alternative finds it as a subterm; gives up (returns d) beyond `cap` alternatives"""
+    def alts(n):
+        if not isinstance(n, tuple) or not n or not isinstance(n[0], str) or n[0] in ('param', 'const', 'fn', 'undef', 'loop', 'loopid'):
+            return [n]
+        if n[0] == 'phi':
+            out = []
+            for a in n[1:]:
+                out += alts(a)
+            return out
+        if n[0] == 'agg':
+            combos = [()]
+            for item in n[2:]:
+                k, v = item
+                va = alts(v)
+                combos = [c + ((k, x),) for c in combos for x in va]
+                if len(combos) > cap:
+                    raise OverflowError
+            return [n[:2] + c for c in combos]
+        combos = [()]
+        for x in n[1:]:
+            xa = alts(x) if isinstance(x, tuple) else [x]
+            combos = [c + (y,) for c in combos for y in xa]
+            if len(combos) > cap:
+                raise OverflowError
+        return [(n[0],) + c for c in combos]
+    try:
+        a = alts(d)
+    except (OverflowError, RecursionError):
+        return d
+    if len(a) == 1:
+        return simplify(a[0])
+    return simplify(('phi',) + tuple(a))
